@@ -5402,6 +5402,9 @@ class Arc(Curve):
             self.pry = Point(start)
             self.center = Point(start)
             return
+        # Negative radii are treated as their absolute values (SVG F.6.6)
+        rx = abs(rx)
+        ry = abs(ry)
         cosr = cos(radians(rotation))
         sinr = sin(radians(rotation))
         dx = (start.real - end.real) / 2
